@@ -282,4 +282,5 @@ def enterx_sem(S, f):
 
 Enc('EnterxLeavexT1', 'T32', '11110 0 111 01 1 (1)(1)(1)(1) 10 (0) 0 (1)(1)(1)(1) 000 J:1 (1)(1)(1)(1)', family=FAM,
     undefined=lambda f, S: z3.BoolVal(not S.cfg.get('thumbee', False)),  # ThumbEE not implemented: UNDEFINED
-    unpred=lambda f, S: in_it_block(S), sem=enterx_sem)
+    unpred=lambda f, S: in_it_block(S), sem=enterx_sem,
+    known=[('F041', lambda f, S: z3.BoolVal(not S.cfg.get('thumbee', False)))])
